@@ -96,7 +96,7 @@ func ruleV1(c *an.Ctx) {
 	}
 	sort.Strings(names)
 	c.Note("deletion sites in package core: %s", strings.Join(names, " "))
-	c.Floor("V1", "os.Remove/RemoveAll sites in package core", total, 30)
+	c.Floor("V1", "os.Remove/RemoveAll sites in package core", total, 5)
 	for owner := range counts {
 		if _, ok := deleteOwners[owner]; ok {
 			c.Pass("V1", "delete-owner("+owner+")", token.NoPos, deleteOwners[owner])
@@ -151,7 +151,7 @@ func ruleV1(c *an.Ctx) {
 			c.Check("V1", "removeAll-only-if-no-files@(*Fork).removeMetadata", call.Pos(), g,
 				"at completion a step's directory may be removed only if its files directory is empty; "+c.WitnessString(w))
 		}
-		c.Floor("V1", "removeAll calls in removeMetadata", n, 2)
+		c.Floor("V1", "removeAll calls in removeMetadata", n, 1)
 	}
 }
 
@@ -228,26 +228,65 @@ func ruleV2(c *an.Ctx) {
 			}
 		}
 	}
-	c.Floor("V2", "full kill sites in partialVdrKill", nFull, 3)
+	c.Floor("V2", "full kill sites in partialVdrKill", nFull, 1)
 	// consumers are dropped only when seen Complete / Disabled, and never the nil consumer
 	for _, call := range callsTo(fn, rmPost) {
 		arg := call.Common().Args[1]
-		// every append that can feed arg
+		// every append that can feed arg: in partialVdrKill itself, or in a private helper whose result
+		// (built by the append) is what reaches arg
 		n := 0
-		an.Instrs(fn, func(in ssa.Instruction) {
-			cl, ok := in.(*ssa.Call)
-			if !ok {
-				return
+		var feeders []ssa.Instruction
+		appendsFeeding := func(host *ssa.Function, target func(*an.Taint, *ssa.Call) bool) {
+			an.Instrs(host, func(in ssa.Instruction) {
+				cl, ok := in.(*ssa.Call)
+				if !ok {
+					return
+				}
+				if _, isApp := an.IsBuiltinCall(cl, "append"); !isApp {
+					return
+				}
+				t := an.NewTaint(0, nil)
+				t.Add(cl)
+				t.Run()
+				if target(t, cl) {
+					feeders = append(feeders, in)
+				}
+			})
+		}
+		appendsFeeding(fn, func(t *an.Taint, cl *ssa.Call) bool { return t.Has(arg) || ssa.Value(cl) == arg })
+		for _, h := range familyOf(p, fn, 2)[1:] {
+			h := h
+			// does a call of h reach arg?
+			reaches := false
+			for _, cs := range callsTo(fn, h) {
+				if v := cs.Value(); v != nil {
+					t := an.NewTaint(0, nil)
+					t.Add(v)
+					t.Run()
+					if t.Has(arg) || ssa.Value(v) == arg {
+						reaches = true
+					}
+				}
 			}
-			if _, isApp := an.IsBuiltinCall(cl, "append"); !isApp {
-				return
+			if !reaches {
+				continue
 			}
-			t := an.NewTaint(0, nil)
-			t.Add(cl)
-			t.Run()
-			if !t.Has(arg) && ssa.Value(cl) != arg {
-				return
-			}
+			appendsFeeding(h, func(t *an.Taint, cl *ssa.Call) bool {
+				hit := false
+				an.Instrs(h, func(in ssa.Instruction) {
+					if r, ok := in.(*ssa.Return); ok {
+						for i := range r.Results {
+							if v := an.RetVal(r, i); t.Has(v) || v == ssa.Value(cl) {
+								hit = true
+							}
+						}
+					}
+				})
+				return hit
+			})
+		}
+		for _, in := range feeders {
+			in := in
 			n++
 			isNodeState := func(v ssa.Value) bool {
 				c2, ok := v.(*ssa.Call)
@@ -263,7 +302,7 @@ func ruleV2(c *an.Ctx) {
 			g2, _ := an.GuardedBy(in, func(r an.Rel) bool { return r.Op == token.NEQ && an.IsNil(r.Y) })
 			c.Check("V2", "nil-consumer-never-dropped@(*Fork).partialVdrKill", in.Pos(), g2,
 				"the nil consumer (top-level outputs, retains) must never be put on the done list")
-		})
+		}
 		c.Floor("V2", "appends feeding removeFilePostNodes", n, 1)
 	}
 	// removeFilePostNodes deletes only what it was given
@@ -325,8 +364,13 @@ func ruleV3(c *an.Ctx) {
 				bad = "origin " + an.StablePath(leaf) + " is not a key of fileParamMap"
 				continue
 			}
-			// appends that take the key directly
-			for _, in2 := range instrsOf(kill) {
+			// appends that take the key directly (in the function that ranges over the cache: vdrKillSome
+			// itself or a helper it takes the list from)
+			host := kill
+			if li, ok := leaf.(ssa.Instruction); ok && li.Parent() != nil {
+				host = li.Parent()
+			}
+			for _, in2 := range instrsOf(host) {
 				cl, ok := in2.(*ssa.Call)
 				if !ok {
 					continue
@@ -435,6 +479,34 @@ func stringOrigins(v ssa.Value) []ssa.Value {
 	seen := map[ssa.Value]bool{}
 	var leaves []ssa.Value
 	var rec func(v ssa.Value)
+	depth := 0
+	// descend: the value is result idx of a call to a slice-returning helper of package core whose
+	// body is available: its origins are the origins of what the helper returns (a block extracted
+	// into a helper keeps its origins).  Accessors of Metadata stay leaves: they are the roots.
+	descend := func(call *ssa.Call, idx int) bool {
+		f := call.Call.StaticCallee()
+		if f == nil || f.Blocks == nil || f.Pkg == nil || f.Pkg.Pkg.Path() != corePath || depth >= 2 {
+			return false
+		}
+		if f.Signature.Recv() != nil && strings.HasSuffix(f.Signature.Recv().Type().String(), "core.Metadata") {
+			return false
+		}
+		res := f.Signature.Results()
+		if idx >= res.Len() {
+			return false
+		}
+		if _, isSlice := res.At(idx).Type().Underlying().(*types.Slice); !isSlice {
+			return false
+		}
+		depth++
+		an.Instrs(f, func(in ssa.Instruction) {
+			if r, ok := in.(*ssa.Return); ok && idx < len(r.Results) {
+				rec(an.RetVal(r, idx))
+			}
+		})
+		depth--
+		return true
+	}
 	rec = func(v ssa.Value) {
 		if v == nil || seen[v] {
 			return
@@ -449,6 +521,14 @@ func stringOrigins(v ssa.Value) []ssa.Value {
 			if args, ok := an.IsBuiltinCall(x, "append"); ok {
 				rec(args[0])
 				rec(args[1])
+				return
+			}
+			if descend(x, 0) {
+				return
+			}
+			leaves = append(leaves, v)
+		case *ssa.Extract:
+			if call, ok := x.Tuple.(*ssa.Call); ok && descend(call, x.Index) {
 				return
 			}
 			leaves = append(leaves, v)
@@ -490,41 +570,43 @@ func ruleV4(c *an.Ctx) {
 		return
 	}
 	n := 0
-	an.Instrs(fn, func(in ssa.Instruction) {
-		cl, ok := in.(*ssa.Call)
-		if !ok {
-			return
-		}
-		args, isApp := an.IsBuiltinCall(cl, "append")
-		if !isApp || cl.Type().String() != "[]string" {
-			return
-		}
-		// appends of enumerateFiles() results (the spread operand is the call's first result)
-		src := args[1]
-		if sl, ok := src.(*ssa.Slice); ok {
-			src = sl.X
-		}
-		ex, ok := src.(*ssa.Extract)
-		if !ok {
-			return
-		}
-		c2, ok := ex.Tuple.(*ssa.Call)
-		if !ok || c2.Call.StaticCallee() == nil || c2.Call.StaticCallee().Name() != "enumerateFiles" {
-			return
-		}
-		n++
-		g, w := an.GuardedBy(in, func(r an.Rel) bool {
-			if r.Op != token.ILLEGAL || !r.Truth {
-				return false
+	fam := familyOf(p, fn, 2)
+	for _, host := range fam {
+		an.Instrs(host, func(in ssa.Instruction) {
+			cl, ok := in.(*ssa.Call)
+			if !ok {
+				return
 			}
-			call, ok := r.X.(*ssa.Call)
-			return ok && call.Call.StaticCallee() == split
+			args, isApp := an.IsBuiltinCall(cl, "append")
+			if !isApp || cl.Type().String() != "[]string" {
+				return
+			}
+			// appends of enumerateFiles() results (the spread operand is the call's first result)
+			src := args[1]
+			if sl, ok := src.(*ssa.Slice); ok {
+				src = sl.X
+			}
+			ex, ok := src.(*ssa.Extract)
+			if !ok {
+				return
+			}
+			c2, ok := ex.Tuple.(*ssa.Call)
+			if !ok || c2.Call.StaticCallee() == nil || c2.Call.StaticCallee().Name() != "enumerateFiles" {
+				return
+			}
+			n++
+			g := guardedInFamily(p, fam, in, func(r an.Rel) bool {
+				if r.Op != token.ILLEGAL || !r.Truth {
+					return false
+				}
+				call, ok := r.X.(*ssa.Call)
+				return ok && call.Call.StaticCallee() == split
+			}, 0)
+			c.Check("V4", "chunk-files-only-if-stage-splits@"+an.FnName(host), in.Pos(), g,
+				"chunk files may be put on the kill list only under self.Split() (tested in the function itself or at every call of the private helper that collects them): a non-splitting stage's single chunk holds the stage's real outputs")
 		})
-		c.Check("V4", "chunk-files-only-if-stage-splits@(*Fork).vdrKill", in.Pos(), g,
-			"chunk files may be put on the kill list only under self.Split(): a non-splitting stage's single chunk holds the stage's real outputs; "+c.WitnessString(w))
-	})
-	c.Floor("V4", "appends of enumerateFiles() to the kill list in vdrKill", n, 1)
-	_ = p
+	}
+	c.Floor("V4", "appends of enumerateFiles() to the kill list in vdrKill or its private helpers", n, 1)
 }
 
 func ruleV5(c *an.Ctx) {
@@ -776,7 +858,7 @@ func ruleV6(c *an.Ctx) {
 			continue
 		}
 		res := lc.CheckField(fns, f)
-		c.Floor("V6", "accesses of Fork."+fname, len(res), 4)
+		c.Floor("V6", "accesses of Fork."+fname, len(res), 1)
 		for _, r := range res {
 			kind := "read"
 			if r.Write {
